@@ -142,6 +142,64 @@ theorem first_model (p : Text) (hp : PathText p) : Path.first p = (segs p).head?
     have hle : Path.first_segment_offset p ≤ p.length := by omega
     simp [Path.Segments.collect, Path.Segments.next, hlt, Path.next_segment_from, hle]
 
+/-- `last()` is the last piece -/
+theorem last_model (p : Text) (hp : PathText p) : Path.last p = (segs p).getLast? :=
+  Lemmas.last_eq_getLast p hp
+
+/-- `is_absolute()` is "begins with `/`" -/
+theorem is_absolute_model (p : Text) : Path.is_absolute p = isAbs p := by
+  cases p <;> rfl
+
+/-- `is_empty()` holds exactly when there is no piece (the texts `` and `/`) -/
+theorem is_empty_model (p : Text) : Path.is_empty p = (segs p).isEmpty := by
+  cases p with
+  | nil => rfl
+  | cons c l =>
+    by_cases hc : (c == cSlash) = true
+    · have hc' : c = cSlash := by simpa using hc
+      subst hc'
+      cases l with
+      | nil => simp [Path.is_empty, segs, stripRoot]
+      | cons d r =>
+        have hne : splitSlash (d :: r) ≠ [] := splitSlash_ne_nil _
+        have : segs (cSlash :: d :: r) = splitSlash (d :: r) := by simp [segs, stripRoot]
+        rw [this]
+        cases hs : splitSlash (d :: r) with
+        | nil => exact absurd hs hne
+        | cons a b => simp [Path.is_empty]
+    · have hc' : (c == cSlash) = false := by simpa using hc
+      have hne : splitSlash (c :: l) ≠ [] := splitSlash_ne_nil _
+      have : segs (c :: l) = splitSlash (c :: l) := by simp [segs, stripRoot, hc']
+      rw [this]
+      cases hs : splitSlash (c :: l) with
+      | nil => exact absurd hs hne
+      | cons a b =>
+        have : c ≠ cSlash := by simpa using hc'
+        simp [Path.is_empty, this]
+
+/-- the three answers agree: no segment is counted exactly when `is_empty()`, and then `first()`,
+`last()` and `file_name()` are all `None` -/
+theorem empty_consistent (p : Text) (hp : PathText p) :
+    ((Path.segmentList p).length = 0 ↔ Path.is_empty p = true) ∧
+      (Path.is_empty p = true → Path.first p = none ∧ Path.last p = none ∧ Path.file_name p = none) := by
+  rw [segment_count_model p hp, is_empty_model p]
+  refine ⟨by cases segs p <;> simp, ?_⟩
+  intro he
+  rw [first_model p hp, last_model p hp, file_name_model p hp]
+  cases hs : segs p with
+  | nil => simp [Oracle.fileName, hs]
+  | cons a b => rw [hs] at he; simp at he
+
+/-- a path with segments has a first and a last one, and they are the ends of the iteration -/
+theorem ends_consistent (p : Text) (hp : PathText p) (hne : Path.is_empty p = false) :
+    ∃ f l, Path.first p = some f ∧ Path.last p = some l ∧
+      (Path.segmentList p).head? = some f ∧ (Path.segmentList p).getLast? = some l := by
+  rw [is_empty_model p] at hne
+  rw [first_model p hp, last_model p hp, forward_model p hp]
+  cases hs : segs p with
+  | nil => rw [hs] at hne; simp at hne
+  | cons a b => exact ⟨a, (a :: b).getLast (by simp), rfl, List.getLast?_eq_some_getLast (by simp), rfl, List.getLast?_eq_some_getLast (by simp)⟩
+
 /-- `directory()` is the text up to and including the last `/` -/
 theorem directory_model (p : Text) : Path.directory p = upToLastSlash p := Lemmas.directory_eq p
 
